@@ -18,6 +18,9 @@
 #include <ksi/policy.h>
 #include <ksi/publicationsfile.h>
 #include <stdarg.h>
+#include <unistd.h>
+#include <sys/wait.h>
+#include <errno.h>
 
 KSI_IMPORT_TLV_TEMPLATE(KSI_Signature);
 KSI_IMPORT_TLV_TEMPLATE(KSI_PublicationsFile);
@@ -424,6 +427,55 @@ static void parsed_free(parsed *o) {
 	}
 	o->obj = NULL;
 }
+/* the same parse in a forked child: 1 accepted, 0 refused, -1 the child ended abnormally (`crash` = "<kind>:<function>").
+ * Used by the pair tier for inputs in which a known element that needs content is empty, so that a crash there
+ * (reported as a violation) does not use up the runner's limit of 40 restarts per shard */
+static int contained_parse(int root, const unsigned char *p, size_t n, char *crash, size_t cn) {
+	int fd[2], st = 0;
+	pid_t pid;
+	char buf[8192];
+	size_t used = 0;
+	ssize_t r;
+	snprintf(crash, cn, "?:?");
+	if (pipe(fd) != 0) vf_harness_error("pipe");
+	fflush(stdout);
+	pid = fork();
+	if (pid < 0) vf_harness_error("fork");
+	if (pid == 0) {
+		parsed o;
+		int res;
+		close(fd[0]);
+		dup2(fd[1], 2);
+		close(fd[1]);
+		res = impl_parse(root, p, n, &o);
+		_exit(res == KSI_OK ? 11 : 10);
+	}
+	close(fd[1]);
+	while ((r = read(fd[0], buf + used, sizeof buf - 1 - used)) != 0) {
+		if (r < 0) { if (errno == EINTR) continue; break; }
+		used += (size_t)r;
+		if (used >= sizeof buf - 1) { char sink[1024]; while (read(fd[0], sink, sizeof sink) > 0) {} break; }
+	}
+	close(fd[0]);
+	buf[used] = 0;
+	while (waitpid(pid, &st, 0) < 0 && errno == EINTR) {}
+	if (WIFEXITED(st) && WEXITSTATUS(st) == 11) return 1;
+	if (WIFEXITED(st) && WEXITSTATUS(st) == 10) return 0;
+	{
+		char kind[64] = "abort", fn[96] = "?", *q, *e, *line;
+		if ((q = strstr(buf, "ERROR: AddressSanitizer: "))) { q += 25; e = strpbrk(q, " \n"); snprintf(kind, sizeof kind, "%.*s", e ? (int)(e - q) : 40, q); }
+		else if (strstr(buf, "runtime error: ")) snprintf(kind, sizeof kind, "ubsan");
+		for (line = buf; line && *line; line = strchr(line, '\n') ? strchr(line, '\n') + 1 : NULL) {
+			char *eol = strchr(line, '\n'), *in;
+			size_t ll = eol ? (size_t)(eol - line) : strlen(line);
+			char tmp[600];
+			snprintf(tmp, sizeof tmp, "%.*s", (int)(ll > 590 ? 590 : ll), line);
+			if (strstr(tmp, "/src/ksi/") && (in = strstr(tmp, " in "))) { in += 4; e = strpbrk(in, " \n"); if (e) *e = 0; snprintf(fn, sizeof fn, "%s", in); break; }
+		}
+		snprintf(crash, cn, "%s:%s", kind, fn);
+	}
+	return -1;
+}
 /* every known field, re-encoded from the typed object through the getters of the templates */
 static int field_dump(parsed *o, vbuf *out) {
 	unsigned char *raw = NULL;
@@ -760,13 +812,29 @@ static const char *hexcut(const unsigned char *p, size_t n) { return vf_hex(p, n
 
 /* `where`: container in which the mutation took place; `what`: operator description;
  * only_nc: the only changes are inserted unknown non-critical elements */
-static void judge(base_t *b, const unsigned char *p, size_t n, const char *where, const char *what, int only_nc, int hashed) {
+static void judge(base_t *b, const unsigned char *p, size_t n, const char *where, const char *what, int only_nc, int hashed, int contain) {
 	rsch_info info;
 	parsed o;
 	int v = rsch_validate(b->root, p, n, &info);
-	int res = impl_parse(b->root, p, n, &o);
-	int acc = (res == KSI_OK);
+	int res, acc;
 	const char *rn = rsch_root_name(b->root);
+	if (contain && v == RSCH_REJECT && info.empty_values > 0) {
+		char crash[200], sig[260];
+		int r = contained_parse(b->root, p, n, crash, sizeof crash);
+		vf_obs("%d%d", v, r);
+		vf_outcome("%s:invalid:%s", rn, r == 1 ? "accepted" : r == 0 ? "refused" : "CRASHED");
+		if (r == 1) {
+			char rule[96], *c2;
+			snprintf(rule, sizeof rule, "%s", info.rule);
+			c2 = strchr(rule, ':'); if (c2) c2 = strchr(c2 + 1, ':'); if (c2) *c2 = 0;
+			snprintf(sig, sizeof sig, "accepts-invalid:%s", rule);
+			fail_once(sig, "%s %s: %s: schema violation [%s] but the %s parser returned KSI_OK; bytes=%s", b->name, what, where, info.rule, rn, hexcut(p, n));
+		}
+		if (r < 0) { snprintf(sig, sizeof sig, "crash:%s", crash); fail_once(sig, "%s %s: %s: the %s parser ended abnormally (%s) on a tree with schema violation [%s]; bytes=%s", b->name, what, where, rn, crash, info.rule, hexcut(p, n)); }
+		return;
+	}
+	res = impl_parse(b->root, p, n, &o);
+	acc = (res == KSI_OK);
 	vf_obs("%d%d", v, acc);
 	vf_outcome("%s:%s:%s", rn, v == RSCH_ACCEPT ? "valid" : v == RSCH_REJECT ? "invalid" : "silent", acc ? "accepted" : "refused");
 	if (v == RSCH_REJECT) {
@@ -845,7 +913,7 @@ static void part_self(void) {
 		vb_init(&w);
 		if (!t || tree_write(t, &w) != 0 || w.n != b->bytes.n || memcmp(w.p, b->bytes.p, w.n) != 0) vf_harness_error("base %s: tree round trip differs", b->name);
 		if (rsch_validate(b->root, b->bytes.p, b->bytes.n, &info) != RSCH_ACCEPT) vf_harness_error("base %s is not accepted by the reference schema: %s / %s", b->name, info.rule, info.silent);
-		judge(b, b->bytes.p, b->bytes.n, "base", "unmodified", 0, 0);
+		judge(b, b->bytes.p, b->bytes.n, "base", "unmodified", 0, 0, 0);
 		base_reference(b);
 		if (b->root == RR_SIG && !b->int_ok) { int rc = 0, code = 0; parsed o; impl_parse(b->root, b->bytes.p, b->bytes.n, &o); internal_ok((KSI_Signature *)o.obj, &rc, &code); vf_harness_error("base %s is not internally consistent rc=%x code=%x", b->name, rc, code); }
 		vf_outcome("base:%s", rsch_root_name(b->root));
@@ -883,7 +951,7 @@ static void part_single(void) {
 			vb_init(&w);
 			if (op_apply(n, op) != 0 || tree_write(t2, &w) != 0) { vf_outcome("operator-not-applicable"); vb_free(&w); vf_case_end(0); continue; }
 			if (pi == 7 && oi < 2) vf_sample("single: %s %s -> %zu bytes", b->name, what, w.n);
-			judge(b, w.p, w.n, cont_name(n->parent), what, op_is_nc_insert(op), in_hashed(n->parent));
+			judge(b, w.p, w.n, cont_name(n->parent), what, op_is_nc_insert(op), in_hashed(n->parent), 0);
 			vb_free(&w);
 			vf_case_end(1);
 		}
@@ -947,7 +1015,7 @@ static void part_pairs(void) {
 					vb_init(&w2);
 					if (op_apply(q->kid[j], &ops2[o2]) == 0 && tree_write(t2, &w2) == 0) {
 						snprintf(what, sizeof what, "position %d operator %s, then child %d of %s operator %s", pi, op1->name, j, where, ops2[o2].name);
-						judge(b, w2.p, w2.n, where, what, op_is_nc_insert(op1) && op_is_nc_insert(&ops2[o2]), in_hashed(q));
+						judge(b, w2.p, w2.n, where, what, op_is_nc_insert(op1) && op_is_nc_insert(&ops2[o2]), in_hashed(q), 1);
 						vf_count("pair_evaluations", 1);
 					}
 					vb_free(&w2);
